@@ -22,7 +22,7 @@ def gen(rng, tier):
         n = rng.choice([1, 2, 3, 10, 40]) if i % 10 else rng.choice([150, 300])
         msgs = []
         for _ in range(n):
-            m = iu.rand_message(rng, cfg or pk, codec, nbits=rng.choice([1, 3, 8, 15]))
+            m = iu.rand_message_fit(rng, cfg or pk, codec, nbits=rng.choice([1, 3, 8, 15]))
             if n > 20:
                 def short(k, v):
                     c = (cfg or pk).get(k[2:]) if k.startswith('DE') else None
@@ -37,7 +37,7 @@ def gen(rng, tier):
         insts = []
         for j in range(k):
             codec = rng.choice(['latin_1', 'cp500'])
-            msgs = [iu.dict_text(iu.rand_message(rng, pk, codec, nbits=rng.choice([1, 3, 6]))) for _ in range(rng.choice([1, 2, 4, 7]))]
+            msgs = [iu.dict_text(iu.rand_message_fit(rng, pk, codec, nbits=rng.choice([1, 3, 6]))) for _ in range(rng.choice([1, 2, 4, 7]))]
             insts.append({'role': rng.choice(['reader', 'writer', 'vbsreader']), 'codec': codec, 'blocked': rng.random() < 0.5, 'msgs': msgs})
         steps = [j for j, inst in enumerate(insts) for _ in range(len(inst['msgs']) + 2)]
         rng.shuffle(steps)
